@@ -24,7 +24,7 @@ RULE = (
     "runs (TrainLoss, ValLoss, EpochStop) on a tiny model with non-improving losses. A case = one configuration with all "
     "its histories; non-trivial: >=1 history in which the reference stops; distinct by configuration. evaluations = stop() calls monitored."
 )
-RULE += " Also: special values {0.5, 2, inf, nan} and the fine alphabet {1e-3, 1e-3-1e-11, 1e-3-2e-11, 1e39} in histories one shorter, verbose modes, exact-fit and improving-then-plateau real runs."
+RULE += " Real runs also count the optimisation steps against the stop decisions (stop() is consulted before every epoch, EpochStop(0) trains nothing). Also: special values {0.5, 2, inf, nan} and the fine alphabet {1e-3, 1e-3-1e-11, 1e-3-2e-11, 1e39} in histories one shorter, verbose modes, exact-fit and improving-then-plateau real runs."
 EXHAUSTIVE = {"quick": True, "thorough": True}
 ASSUMPTIONS = ["automaton vmon/ref/misc.py:PatienceAutomaton written from the statement", "losses over {-1,0,1,2} and min_delta in {0,0.5,1,1.5} are exact in every representation"]
 ANCHORS = [
@@ -55,9 +55,9 @@ def cases(tier, seed):
                     out.append({"kind": "hist", "cls": cls, "patience": patience, "min_delta": md, "rep": rep, "maxlen": MAXLEN[tier]})
     for epochs in range(6):
         out.append({"kind": "epoch", "epochs": epochs})
-    real = [("TrainLoss", 0), ("ValLoss", 1), ("EpochStop", 2), ("TrainLoss", 2)]
+    real = [("TrainLoss", 0), ("ValLoss", 1), ("EpochStop", 2), ("TrainLoss", 2), ("EpochStop", 0)]
     if tier == "thorough":
-        real += [("ValLoss", 0), ("TrainLoss", 1), ("EpochStop", 0), ("EpochStop", 4), ("ValLoss", 3), ("TrainLoss", 3)]
+        real += [("ValLoss", 0), ("TrainLoss", 1), ("EpochStop", 1), ("EpochStop", 4), ("ValLoss", 3), ("TrainLoss", 3)]
     for j, (cls, n) in enumerate(real):
         for model in (["scale"] if tier == "quick" or j >= 4 else ["scale", "conv"]):
             out.append({"kind": "real", "cls": cls, "n": n, "model": model, "lr": [0.0, 1e-7][j % 2]})
@@ -145,7 +145,17 @@ def setup(ctx):
     import ginjax.ml  # noqa: F401
 
     _mon = StopMonitor().install()
+    # how many optimisation steps a real run actually made (the stop decisions alone do not say when the loop consults them)
+    import ginjax.ml.training as tr
+    from .. import probes
+
+    log = probes.EventLog()
+    log.enabled = False
+    probes.install_function(tr, "train_step", "ml.train_step", log, lambda ev: _steps.__setitem__(0, _steps[0] + 1))
     return rmisc.selftest()
+
+
+_steps = [0]
 
 
 def make_rep(rep):
@@ -326,6 +336,8 @@ def run_real(case, ctx):
     _mon.take()
     _mon.register(cond, auto, monitored, abort_on_miss=True, max_calls=(400 if case.get("improving") else n + 25))
     calls_before = _mon.calls
+    steps_before = _steps[0]
+    aborted = False
     viols = []
     returned = None
     sink = io.StringIO()
@@ -333,7 +345,7 @@ def run_real(case, ctx):
         with contextlib.redirect_stdout(sink):
             returned = ml.train(X, Y, map_and_loss, model, jax.random.PRNGKey(int(case["i"])), cond, 2, optax.sgd(lr), validation_X=VX if cls == "ValLoss" else None, validation_Y=VY if cls == "ValLoss" else None)[0]
     except _Abort:
-        pass
+        aborted = True
     except Exception as e:
         viols.append(viol(f"train-exception-{type(e).__name__}", f"ml.train raised {type(e).__name__}: {str(e)[:300]}"))
     viols += _mon.take()
@@ -349,6 +361,13 @@ def run_real(case, ctx):
                     viols.append(viol("harness-history-not-improving", f"the 'improving' history improved only {improved} times (harness problem)", trace=tr))
             elif calls != expect_calls:
                 viols.append(viol("stop-call-count", f"{cls}: training made {calls} stop() calls, the specification implies {expect_calls}", trace=tr))
+            # the loop trains one epoch per stop() that answered "go on": stop() is consulted before every epoch, including
+            # the first, so a run with c decisions has trained exactly c-1 epochs of floor(L/B) steps (EpochStop(0): none)
+            steps = _steps[0] - steps_before
+            if not aborted and steps != (calls - 1) * (L // 2):
+                viols.append(viol("train-step-count", f"{cls}(n={n}): {steps} optimisation steps for {calls} stop() decisions; the specification implies {(calls - 1) * (L // 2)} ({calls - 1} epochs of {L // 2} batches)", trace=tr))
+            if cls == "EpochStop" and n == 0 and lr > 0 and float(returned.w if hasattr(returned, "w") else 0) != float(model.w if hasattr(model, "w") else 0):
+                viols.append(viol("train-step-count", "EpochStop(0): the returned model is not the untouched initial model"))
             if returned is not auto.best_model:
                 viols.append(viol("best-model-mismatch", f"{cls}: ml.train did not return the model of the best epoch / last epoch", trace=tr))
     key = {k: case.get(k) for k in ("cls", "n", "model", "lr", "improving", "exact_fit")}
